@@ -331,3 +331,39 @@ where
         })
         .collect::<Vec<_>>()
 }
+
+/// Whether a point a backend handed back satisfies the rows and the variable
+/// ranges of the model. A backend can stop on a point that is no solution at
+/// all (interior point on rank-deficient systems, the sparse simplex on badly
+/// scaled rows): such an answer must not be passed on as a solution.
+pub(crate) fn point_satisfies_model(lp: &crate::transformers::LinearModel, values: &[f64]) -> bool {
+    lp.constraints().iter().all(|constraint| {
+        let (lhs, scale) = constraint
+            .coefficients()
+            .iter()
+            .zip(values)
+            .fold((0.0, 0.0_f64), |(sum, scale), (coefficient, value)| {
+                (sum + coefficient * value, scale + (coefficient * value).abs())
+            });
+        // relative to the right-hand side, with a small allowance for the
+        // round-off of the products themselves
+        let tolerance = 1e-6 * (1.0 + constraint.rhs().abs()) + 1e-12 * scale;
+        match constraint.constraint_type() {
+            Comparison::LessOrEqual | Comparison::Less => lhs <= constraint.rhs() + tolerance,
+            Comparison::GreaterOrEqual | Comparison::Greater => {
+                lhs >= constraint.rhs() - tolerance
+            }
+            Comparison::Equal => (lhs - constraint.rhs()).abs() <= tolerance,
+        }
+    }) && lp.variables().iter().zip(values).all(|(name, value)| {
+        let (lower, upper) = match lp.domain().get(name).map(|variable| variable.get_type()) {
+            Some(VariableType::Real(lower, upper)) => (*lower, *upper),
+            Some(VariableType::NonNegativeReal(lower, upper)) => (lower.max(0.0), *upper),
+            Some(VariableType::IntegerRange(lower, upper)) => (*lower as f64, *upper as f64),
+            Some(VariableType::Boolean) => (0.0, 1.0),
+            None => (f64::NEG_INFINITY, f64::INFINITY),
+        };
+        let tolerance = 1e-6 * (1.0 + value.abs());
+        value.is_finite() && *value >= lower - tolerance && *value <= upper + tolerance
+    })
+}
